@@ -159,9 +159,9 @@ def wrong_key(evs):
         if e.get("kind") == "norm" and e["obs"][0] == "set" and e["obs"][1][0] == "obj" and e["obs"][1][1]:
             e["obs"][1][1][0][0] = [122, 122]
             return evs
-# (the first line of a norm trace is the witness of an open known finding: left out)
+# (the first lines of a norm trace are the witnesses of open known findings: left out)
 check("a normalised key renamed", "TraceAux", core.TRACE_CFG % "InvAux",
-      [l for l in open(nout).readlines() if "invalid-utf8" not in l], wrong_key)
+      [l for l in open(nout).readlines() if "invalid-utf8" not in l and "subminute-zone" not in l], wrong_key)
 
 # the reporting path: an open known finding suppresses only what its entry identifies
 class _K:
